@@ -44,7 +44,7 @@ Print Assumptions C12_sigall_no_melt.
 Theorem C12_helper_input_accepted : forall now pk nonce i ts pt,
   in_secret i = SNut10 KP2PK (DKey (KGood pk)) ts ->
   parse_tags ts = Some pt -> ~ expired now pt ->
-  (pt_nsigs pt <= 1) -> (0 < pt_nsigs pt -> pt_pubkeys pt <> []) ->
+  (pt_nsigs pt <= 1) ->
   let i' := helper_p2pk_input pk nonce i in
   verify_condition now (in_msg i') (in_secret i') (in_wit i') = true.
 Proof. exact helper_p2pk_input_accepted. Qed.
